@@ -158,7 +158,7 @@ CHECKS = {
              "with no byte request in between. T2: the buffer parameters of the pump and of the three lazy front-end "
              "scanners are used only through iter()/next() (except inside raise). T3: the processor never receives the "
              "buffer or iterator. T6: a scanner starts one traversal of its raw source only (bytes / lists restart). T5 (= C05-E3): the empty prefix of a non-stream decode reports depletion like every other "
-             "prefix. This is the structural core of the property; concrete pull counts are its dynamic view. T6 also: next() only on an iterator made from the source (never on the raw parameter). T7 (= C15-F11): a character obtained with next(it, default) reaches int(..., 16) only where the default was excluded. T2 also covers the front-end functions (hex / swtpm / auto marshal): no pre-read or materialisation of the caller's source. T8 no closure made in a loop over the sources reads its loop variable late (every reader would read the last source). T9 (= C19-L12) the file reader hands out every file to its end; T10 (= C03-R4) a decode starts from its own region list. T11 (= C11-A6 = C12-P2) the memo of the synthesised parameter-area type never evicts. T12 the file reader's test on `<file>.mode` holds for 'r' (sys.stdin, open(path): read through .buffer) and not for 'rb'.",
+             "prefix. This is the structural core of the property; concrete pull counts are its dynamic view. T6 also: next() only on an iterator made from the source (never on the raw parameter). T7 (= C15-F11): a character obtained with next(it, default) reaches int(..., 16) only where the default was excluded. T2 also covers the front-end functions (hex / swtpm / auto marshal): no pre-read or materialisation of the caller's source. T8 no closure made in a loop over the sources reads its loop variable late (every reader would read the last source). T9 (= C19-L12) the file reader hands out every file to its end; T10 (= C03-R4) a decode starts from its own region list. T11 (= C11-A6 = C12-P2) the memo of the synthesised parameter-area type never evicts. T12 the file reader's test on `<file>.mode` holds for 'r' (sys.stdin, open(path): read through .buffer) and not for 'rb'. T13 (= C15-F5) the Auto detector hands back the bytes it looked at for every format it announces.",
         note="trusted: CPython ast; Python iterator/generator protocol. pcapng.marshal materialises its input by design (documented in the code) and is outside T2.",
         technique="CFG + typestate abstract interpretation of the pump, who-may-use rules on iterator/buffer variables",
         design="4/C10",
@@ -211,7 +211,7 @@ CHECKS = {
              "the folder never needs folding; Q4 row shape: indentation len(path)-1, value text form, hex column = binary "
              "re-encoding of that event (the row is compared as a function of the two column conditions on path summaries, colour "
              "codes stripped, nested f-strings and str.join flattened), attribute rows only from the main loop with path+PathNode(attr). The rendered text "
-             "is not decided. Q5 list folding mode by element type, one membership test (same enclosing path and field name), empty-list flag, the folder pulls; Q6 no unbound local / undefined name in the printers. Q7 no discarded generators in the printers; Q8 the byte buffer's translation table (folded) maps every byte to printable ASCII. Q6 also walks TPM_RC.__format__ / attributes() path by path (the symbolic walk of C18): a local read on a path that never assigned it is an UnboundLocalError for the codes of that path. Q9 (= C17-M2 accessor fold): the text form lists a field exactly when its accessor gives a non-zero number; Q4 falls back to the row fold of C17-M2 when attribute rows are not built in place. Q10 (= C17-M2, rows) the rows built in place are folded over every attribute type as well: one row per mask, value bits under the mask's ones, full width. Q11 PathNode.__str__ evaluated for index None, 0, 1, 2 gives four different texts (a list, its first element and the others are told apart).",
+             "is not decided. Q5 list folding mode by element type, one membership test (same enclosing path and field name), empty-list flag, the folder pulls; Q6 no unbound local / undefined name in the printers. Q7 no discarded generators in the printers; Q8 the byte buffer's translation table (folded) maps every byte to printable ASCII. Q6 also walks TPM_RC.__format__ / attributes() path by path (the symbolic walk of C18): a local read on a path that never assigned it is an UnboundLocalError for the codes of that path. Q9 (= C17-M2 accessor fold): the text form lists a field exactly when its accessor gives a non-zero number; Q4 falls back to the row fold of C17-M2 when attribute rows are not built in place. Q10 (= C17-M2, rows) the rows built in place are folded over every attribute type as well: one row per mask, value bits under the mask's ones, full width. Q11 PathNode.__str__ evaluated for index None, 0, 1, 2 gives four different texts (a list, its first element and the others are told apart). Q12 (= C16-O4) the text of a handle-range member is the range's name and the offset in the documented number of hex digits.",
         note="trusted: CPython ast; L (E1); C02-B2 for the hex column's content.",
         technique="must-dataflow (guard dominance) + typestate over the printer CFGs + FOLLOW-set facts from the static layout model",
         design="4/C14",
@@ -278,7 +278,7 @@ CHECKS = {
              "bytes and warn mode to the selected front-end and prints every item the selected printer yields (hex for bytes) "
              "with no cut in the loop; L4 the type search decodes strictly and catches exactly the documented error classes; "
              "L5 example output is under the command-code filter / exact-type selection and rendered from one event list. The "
-             "statement's observable (stdout / exit status of a process) is not decided. L2 the suggestion lookup cannot fail; L7 an eager Canonical has decoded inside its constructor with the arguments it was given, `type` lists the decoded type name (responses with their command code); L6 no unbound local / undefined name. L8 cc_name folded over all command codes gives the member's name; L7 also checks the plumbing of the type listing. L9 (= C15-F2) every front-end returns the decoder's result; L4 folds the tests on the candidate type over the layout's type listing (stream type and unions skipped, Response with every command code). L11 (= C11-A1) the members a message may lack are exactly those the object-to-events conversion leaves out; L4 follows candidate generators and command-code name tables; L7 accepts any whole-content read of args.file through a reader of tpmstream.io. L12 the file reader of tpmstream.io has no return inside and no break out of its loop over the files. L13 (= C15-F1) the options convert passes reach the decoder on every branch of every front-end. L14 (= C02-B2) the binary encoder skips events without a value before it looks at one (--out binary in warn mode). L15 (= C15-F5) the pcapng cutter drops nothing but runts below the header size; L16 (= C10-T12) standard input (a text-mode file) is read through its byte buffer.",
+             "statement's observable (stdout / exit status of a process) is not decided. L2 the suggestion lookup cannot fail; L7 an eager Canonical has decoded inside its constructor with the arguments it was given, `type` lists the decoded type name (responses with their command code); L6 no unbound local / undefined name. L8 cc_name folded over all command codes gives the member's name; L7 also checks the plumbing of the type listing. L9 (= C15-F2) every front-end returns the decoder's result; L4 folds the tests on the candidate type over the layout's type listing (stream type and unions skipped, Response with every command code). L11 (= C11-A1) the members a message may lack are exactly those the object-to-events conversion leaves out; L4 follows candidate generators and command-code name tables; L7 accepts any whole-content read of args.file through a reader of tpmstream.io. L12 the file reader of tpmstream.io has no return inside and no break out of its loop over the files. L13 (= C15-F1) the options convert passes reach the decoder on every branch of every front-end. L14 (= C02-B2) the binary encoder skips events without a value before it looks at one (--out binary in warn mode). L15 (= C15-F5) the pcapng cutter drops nothing but runts below the header size; L16 (= C10-T12) standard input (a text-mode file) is read through its byte buffer. L17 (= C14-Q1) the printers read path / type / value of a stream item only where it is known to be a MarshalEvent (--out events / pretty on a warn-mode decode).",
         note="weakest claim: shape of __main__.py only; trusted: argparse semantics.",
         technique="table agreement + decision lists over path summaries of the CLI functions",
         design="4/C19",
